@@ -22,8 +22,12 @@ impl<T: Pod, L: PodLength> ListViewMut<'_, T, L> {
         if length >= self.capacity {
             Err(ListViewError::BufferTooSmall.into())
         } else {
+            // convert the new length first, so that a length that does not
+            // fit the prefix type leaves the buffer untouched
+            let new_length =
+                L::try_from(length.saturating_add(1)).map_err(ListViewError::from)?;
             self.data[length] = item;
-            *self.length = L::try_from(length.saturating_add(1)).map_err(ListViewError::from)?;
+            *self.length = new_length;
             Ok(())
         }
     }
